@@ -295,13 +295,18 @@ def run_history(cfg, ops, choices=None, fail_starts=(), preempt=None):
     gates = {}
     ended = set()
 
-    def job(i):
+    def job(i, how=None):
         gates[i] = S.SEvent(sch)
 
         def j():
             f["ran"][i] = f["ran"].get(i, 0) + 1
             gates[i].wait()
             ended.add(i)
+            if how == "err":
+                raise ValueError("the connection's job ends with an exception")
+            if how == "exit":
+                f["exits"] = f.get("exits", 0) + 1
+                raise SystemExit(0)         # (e.g. a served method that calls sys.exit(): not an Exception)
         return j
 
     def main():
@@ -319,7 +324,7 @@ def run_history(cfg, ops, choices=None, fail_starts=(), preempt=None):
                 i = n
                 n += 1
                 try:
-                    pool.process(job(i))
+                    pool.process(job(i, op[1] if len(op) > 1 else None))
                     accepted = True
                 except T.NoFreeWorkersError:
                     accepted = False
@@ -382,9 +387,14 @@ def check_history(case, sch, f):
         viol(sig, f["wrong"][0])
     if sch.deadlock and not f["wrong"] and not f["error"]:
         stuck = list(getattr(sch, "stuck", [])) or [n for n, s in sch.threads.items() if not s["done"]]
-        viol("stuck", "no thread can run any more; stuck threads %r, events %r" % (stuck, f["events"]))
+        if f.get("exits") and "main" in stuck and not any(e[0] == "sub" and e[3] is True and not f["ran"].get(e[1]) for e in f["events"]):
+            # every accepted connection was served; the harness waits in vain for the slot of the worker whose job ended with SystemExit
+            viol("worker-slot-lost:job-ended-with-baseexception", "a connection's job ended with SystemExit: its worker thread is gone but the pool still counts it as busy "
+                 "(events %r)" % (f["events"],))
+        else:
+            viol("stuck", "no thread can run any more; stuck threads %r, events %r" % (stuck, f["events"]))
         return V
-    errs = {n: e for n, e in sch.errors().items()}
+    errs = {n: e for n, e in sch.errors().items() if not (isinstance(e, SystemExit) and f.get("exits"))}
     if errs:
         viol("thread-exception", "exception escaped a pool thread: %r" % (errs,))
     twice = [i for i, n in f["ran"].items() if n > 1]
@@ -415,7 +425,10 @@ def check_history(case, sch, f):
 def history_case(draw):
     size = draw(st.integers(1, 3))
     cfg = {"size": size, "minsize": draw(st.integers(1, size))}
-    ops = draw(st.lists(st.one_of(st.just(["sub"]), st.just(["sub"]), st.tuples(st.just("rel"), st.integers(0, 3)).map(list)), min_size=2, max_size=16))
+    ops = draw(st.lists(st.one_of(st.just(["sub"]), st.just(["sub"]), st.just(["sub"]), st.just(["sub", "err"]), st.tuples(st.just("rel"), st.integers(0, 3)).map(list),
+                                  st.tuples(st.just("rel"), st.integers(0, 3)).map(list)), min_size=2, max_size=16))
+    if draw(st.integers(0, 7)) == 0:
+        ops = [(["sub", "exit"] if (o == ["sub"] and k % 2) else o) for k, o in enumerate(ops)]
     case = {"layer": "history", "cfg": cfg, "ops": ops, "choices": draw(st.one_of(st.just([]), st.lists(st.integers(0, 3), max_size=60)))}
     if draw(st.integers(0, 3)) == 0:
         case["fail_starts"] = sorted(set(draw(st.lists(st.integers(1, 4), min_size=1, max_size=2))))     # which thread starts (after the pool exists) fail
@@ -437,6 +450,10 @@ def _history_labels(case):
         l.append("pool-can-shrink")
     if case.get("fail_starts"):
         l.append("fault:thread-start-fails")
+    if any(len(o) > 1 and o[0] == "sub" and o[1] == "err" for o in ops):
+        l.append("job-ends-with-exception")
+    if any(len(o) > 1 and o[0] == "sub" and o[1] == "exit" for o in ops):
+        l.append("job-ends-with-SystemExit")
     return l
 
 
